@@ -36,6 +36,13 @@ func main() {
 	tags := flag.String("tags", "", "build tags for loading")
 	goarch := flag.String("goarch", "", "GOARCH for loading")
 	flag.Parse()
+	// scratch copies are analysed from other directories: relative paths would not survive
+	if a, err := filepath.Abs(*repo); err == nil {
+		*repo = a
+	}
+	if a, err := filepath.Abs(*verif); err == nil {
+		*verif = a
+	}
 	if t := os.Getenv("VERIF_TIER"); t != "" && *tier == "" {
 		*tier = t
 	}
